@@ -48,7 +48,8 @@ def strat_case(draw, tier):
     # CTMC process does to its copy of the model; the multilevel engine prices that copy with COS): same process, same prices
     return {"model": draw(strat_model()), "T": draw(_f(0.1, 3.0)), "nk": draw(st.integers(3, 9)),
             "scalar_k": draw(st.floats(0.2, 0.8)),
-            "declare": draw(st.sampled_from([None, None, "TILDE", "ONEONE", "CENTER"]))}
+            "declare": draw(st.sampled_from([None, None, "TILDE", "ONEONE", "CENTER"])),
+            "notional": draw(st.sampled_from([1.0, 2.5, 100.0, 0.01]))}
 
 
 def _ladder(pricer, spot, T, nk, carry=0.0):
@@ -209,6 +210,18 @@ def body_arbitrage(case):
     pf = np.asarray(p1.price(Product(Spot(), Forward(strike=float(ks[1])), maturity=T)), dtype=float)
     if not np.allclose(pc, calls, rtol=0, atol=1e-12 * spot) or abs(float(pp.ravel()[0]) - puts[1]) > 1e-12 * spot or abs(float(pf.ravel()[0]) - fw[1]) > 1e-12 * spot:
         out.append(Violation(f"C18/cos/{br}/price-dispatch", detail))
+    # the same through price() for products with a notional: whatever the convention (price() of the unit product, as
+    # now, or notional x price), call - put = forward must hold between the three products and the three must scale alike
+    N = case.get("notional", 2.5)
+    k1 = float(ks[1])
+    trio = [np.asarray(p1.price(Product(Spot(), pay, maturity=T, notional=N)), dtype=float).ravel()[0]
+            for pay in (Vanilla(strike=k1, payoff_type=PayoffType.CALL), Vanilla(strike=k1, payoff_type=PayoffType.PUT), Forward(strike=k1))]
+    unit = [calls[1], puts[1], fw[1]]
+    ratios = [t / u for t, u in zip(trio, unit) if abs(u) > 1e-6 * spot]
+    if abs(trio[0] - trio[1] - trio[2]) > 1e-9 * spot * max(1.0, abs(N)) * max(1.0, ks[-1] / spot) or \
+            (ratios and max(ratios) - min(ratios) > 1e-9 * max(1.0, abs(N))):
+        out.append(Violation(f"C18/cos/{br}/price-of-products-with-a-notional-breaks-parity",
+                             f"notional {N}: price(call), price(put), price(forward) = {trio} against unit prices {unit}; {detail}"))
     return out
 
 
